@@ -160,8 +160,10 @@ def call_builtin(eng, name, args, kwargs, st, node):
             return [(st, vint(len(v.items)))]
         if v.k == 'str' and v.py is not None:
             return [(st, vint(len(v.py)))]
-        if v.k == 'bytes' and v.py is not None:
-            return [(st, vint(len(v.py)))]
+        if v.k == 'bytes':
+            return [(st, vint(eng.bytes_len(v)))]
+        if v.k == 'str' and v.extra and 'chars' in v.extra:
+            return [(st, vint(v.extra['chars']))]
         if v.k == 'dyn':
             ln = VV.any_len(v.z)
             st.pc.append(ln >= 0)
@@ -380,6 +382,43 @@ def call_ext(eng, mod, name, args, kwargs, st, node):
         v = eng.fresh_val('real', 'now')
         st.trace.append(('time', v.z))
         return [(st, v)]
+    if mod == 'struct' and name == 'pack':
+        _t('struct.pack (lengths and value ranges of >i >Q >f >d)')
+        fmt = args[0]
+        if fmt.k != 'str' or fmt.py not in ('>i', '>Q', '>f', '>d', '>q', '>h', 'B', 'b', '>I'):
+            raise Unsupported(node, 'struct.pack format')
+        v = args[1]
+        f = fmt.py
+        if f in ('>i', '>Q', '>q', '>h', 'B', 'b', '>I'):
+            lo, hi, n = {'>i': (-2**31, 2**31 - 1, 4), '>Q': (0, 2**64 - 1, 8),
+                         '>q': (-2**63, 2**63 - 1, 8), '>h': (-2**15, 2**15 - 1, 2),
+                         'B': (0, 255, 1), 'b': (-128, 127, 1), '>I': (0, 2**32 - 1, 4)}[f]
+            if v.k not in ('int', 'bool'):
+                return [(st, Raised(eng.make_exc('struct.error', node=node)))]
+            outs = []
+            z = to_int(v)
+            for st1, ok in eng.branch(st, z3.And(z >= lo, z <= hi), node):
+                if ok:
+                    outs.append((st1, V('bytes', py=None, extra={'len': z3.IntVal(n),
+                                                                 'has_nul': eng.fresh('nul', z3.BoolSort())})))
+                else:
+                    outs.append((st1, Raised(eng.make_exc('struct.error', node=node))))
+            return outs
+        if f in ('>f', '>d'):
+            n = 4 if f == '>f' else 8
+            if not is_num(v):
+                return [(st, Raised(eng.make_exc('struct.error', node=node)))]
+            if f == '>d':
+                return [(st, V('bytes', py=None, extra={'len': z3.IntVal(n), 'has_nul': eng.fresh('nul', z3.BoolSort())}))]
+            x = to_real(v)
+            big = z3.RealVal('340282356779733661637539395458142568448')   # > this rounds out of float32
+            outs = []
+            for st1, ok in eng.branch(st, z3.And(x < big, x > -big), node):
+                if ok:
+                    outs.append((st1, V('bytes', py=None, extra={'len': z3.IntVal(n), 'has_nul': eng.fresh('nul', z3.BoolSort())})))
+                else:
+                    outs.append((st1, Raised(eng.make_exc('OverflowError', node=node))))
+            return outs
     if mod == 'inspect' or mod == 'logging':
         raise Unsupported(node, '%s.%s' % (mod, name))
     h = eng.contract.hooks.get('ext')
